@@ -227,8 +227,18 @@ def _real_schema(ck, camp, sdl: str):
     import datamodel_code_generator.parser.graphql as real
 
     fn = realcall.resolve(ck, camp, real, "build_graphql_schema", "parser.graphql.build_graphql_schema")
-    ok, schema = realcall.call(ck, camp, "parser.graphql.build_graphql_schema", fn, sdl)
+    ok, schema = direct(ck, camp, "parser.graphql.build_graphql_schema", fn, sdl)
     return schema if ok else None
+
+
+def direct(ck, camp, what: str, fn, *args, _case=None):
+    """realcall.call, and an exception raised by the BODY of the real function on arguments the model's
+    transliteration was written for is a disagreement of the campaign as well (not a crash of it)"""
+    try:
+        return realcall.call(ck, camp, what, fn, *args, _case=_case)
+    except Exception as e:  # noqa: BLE001
+        ck.disagree(camp, {"real_call": what, "case": _case}, "the call returns", f"raised {type(e).__name__}: {e}"[:300])
+        return False, None
 
 
 def _field_tuple(c17, f):
@@ -331,12 +341,12 @@ def campaign_defaults(ck: Check, c17, n_batches: int, per_batch: int) -> None:
                 continue
             gfield = gobj.fields.get(n)
             # (b) `_get_default` itself, with the arguments parse_field gives it
-            ok, got = realcall.call(ck, camp, "GraphQLParser._get_default(field, final_data_type, required)", get_default,
-                                    gfield, f.data_type, f.required, _case=inp)
+            ok, got = direct(ck, camp, "GraphQLParser._get_default(field, final_data_type, required)", get_default,
+                             gfield, f.data_type, f.required, _case=inp)
             if ok and canon(got) != model[3]:
                 ck.disagree(camp, {**inp, "what": "_get_default called directly"}, model[3], canon(got))
             # (c) `parse_field` itself
-            ok, f2 = realcall.call(ck, camp, "GraphQLParser.parse_field(field_name, alias, field)", parse_field, n, None, gfield, _case=inp)
+            ok, f2 = direct(ck, camp, "GraphQLParser.parse_field(field_name, alias, field)", parse_field, n, None, gfield, _case=inp)
             if ok:
                 with realcall.guard(ck, camp, "the DataModelField parse_field returns (required, data_type, has_default, default)", inp):
                     impl2 = _field_tuple(c17, f2)
